@@ -244,3 +244,24 @@ Example C02_restore_step_nonvacuous :
   /\ out_of st nv_a (s "a.out") = Some (File false (s "9"))
   /\ outs_of (rn_st (plz_build true nv_rA [s "//p:b"] st)) nv_b = [(s "b.out", Some (File false (s "12")))].
 Proof. vm_compute. repeat split. Qed.
+
+(* ------------------------------------------------------------------------------------------ *)
+(* follow-up of the seeded change C02/r2-m1: the source hash (hence the cache key) of a consumer behind a filegroup whose output
+   is a HARD LINK to the user's file.  Model/C01Ext.v follows the inodes; the nil mark CopyHash leaves in the memo and what
+   PathHasher.Hash does with it are regenerated from the source (Gen/EngineRecord.v: fg_same_file_acts, hasher_nil_mark,
+   hasher_read_guard).  For every history of rewrites in place, replacements, renames, rm -rf plz-out and builds in fresh
+   processes the key changes exactly when the content does: A, B, A in place never looks up B's entry for A's content. *)
+From PlzV Require Model.C01Ext Proof.C01Ext.
+Theorem C02_hard_link_key_exact : forall (c0 : str) (evs : list C01Ext.event),
+  C01Ext.irun C01Ext.gen_flags (C01Ext.iinit c0) evs = C01Ext.ispec c0 None None None evs.
+Proof. exact C01Ext.ino_runs_exact. Qed.
+Print Assumptions C02_hard_link_key_exact.
+
+Example C02_hard_link_nonvacuous :
+  C01Ext.irun C01Ext.gen_flags (C01Ext.iinit (s "A"))
+    [C01Ext.Build; C01Ext.Build; C01Ext.EditA (s "B"); C01Ext.Build; C01Ext.EditA (s "A"); C01Ext.Build; C01Ext.Build]
+  = [(true, None); (false, None); (true, None); (true, None); (false, None)]
+  /\ C01Ext.irun (C01Ext.mkF true false false true true) (C01Ext.iinit (s "A"))
+    [C01Ext.Build; C01Ext.Build; C01Ext.EditA (s "B"); C01Ext.Build; C01Ext.EditA (s "A"); C01Ext.Build; C01Ext.Build]
+  <> [(true, None); (false, None); (true, None); (true, None); (false, None)].
+Proof. vm_compute. split; [reflexivity|discriminate]. Qed.
